@@ -125,22 +125,22 @@ fn snapshot_params(d: &Dictionary, out: &mut [WordParam; 8]) -> usize {
     k
 }
 
-//@ c06_dict_map_valid {"desc":"Dictionary::map_connection_ids_from_iter with any valid permutation pair: every system/user/unknown entry gets the mapped ids with unchanged cost, the connector answers cost(map r, map l) = cost(r,l) for every pair incl. id 0, the mapper is retained","bounds":"dictionary S6: system {a,ab}, user {b}, 3 unk entries, 3x3 matrix","symbolic":"both permutations, all params, matrix cells","functions":["Dictionary::map_connection_ids_from_iter","Lexicon::map_connection_ids","WordParams::map_connection_ids","UnkHandler::map_connection_ids","ConnectorWrapper::map_connection_ids","MatrixConnector::map_connection_ids"],"unwind":10,"fs":2048,"timeout":1200,"stubs":["alloc::fmt::format"]}
+/// The whole-dictionary mapping for a *concrete* permutation pair (the permutation is the
+/// structure of the instance; all entry parameters and matrix cells are symbolic).  Non-involutive
+/// permutations (3-cycles) are included on purpose: a mapping applied in the wrong direction is
+/// invisible under swaps.
 #[cfg(kani)]
-#[kani::proof]
-#[kani::stub(alloc::fmt::format, stub_format)]
-fn c06_dict_map_valid() {
-    let d = dict_of(&S6);
+fn dict_map_concrete<const NL: usize, const NR: usize>(spec: &Spec, lmap: [u16; NL], rmap: [u16; NR]) {
+    let (nl, nr) = (NL + 1, NR + 1);
+    let d = dict_of(spec);
     let mut before = [WordParam::default(); 8];
     let nb = snapshot_params(&d, &mut before);
-    let mut cost_before = [[0i32; 3]; 3];
-    for r in 0..3 {
-        for l in 0..3 {
+    let mut cost_before = [[0i32; 4]; 4];
+    for r in 0..nr {
+        for l in 0..nl {
             cost_before[r][l] = d.verif_conn_cost(r as u16, l as u16);
         }
     }
-    let lmap = sym_perm(2);
-    let rmap = sym_perm(2);
     let d = match d.map_connection_ids_from_iter(lmap.iter().cloned(), rmap.iter().cloned()) {
         Ok(d) => d,
         Err(_) => {
@@ -149,17 +149,13 @@ fn c06_dict_map_valid() {
         }
     };
     // new id of an old id, from the mapping convention (i-th line names the old id that gets id i)
-    let mut newl = [0u16; 3];
-    let mut newr = [0u16; 3];
-    for i in 0..2 {
-        for old in 1..3 {
-            if lmap[i] as usize == old {
-                newl[old] = (i + 1) as u16;
-            }
-            if rmap[i] as usize == old {
-                newr[old] = (i + 1) as u16;
-            }
-        }
+    let mut newl = [0u16; 4];
+    let mut newr = [0u16; 4];
+    for i in 0..NL {
+        newl[lmap[i] as usize] = (i + 1) as u16;
+    }
+    for i in 0..NR {
+        newr[rmap[i] as usize] = (i + 1) as u16;
     }
     let mut after = [WordParam::default(); 8];
     let na = snapshot_params(&d, &mut after);
@@ -167,25 +163,52 @@ fn c06_dict_map_valid() {
     for k in 0..8 {
         if k < nb {
             assert!(after[k].word_cost == before[k].word_cost);
-            for old in 0..3 {
-                if before[k].left_id as usize == old {
+            for old in 0..4 {
+                if old < nl && before[k].left_id as usize == old {
                     assert!(after[k].left_id == newl[old], "a left id was not mapped consistently");
                 }
-                if before[k].right_id as usize == old {
+                if old < nr && before[k].right_id as usize == old {
                     assert!(after[k].right_id == newr[old], "a right id was not mapped consistently");
                 }
             }
         }
     }
-    for r in 0..3 {
-        for l in 0..3 {
+    for r in 0..nr {
+        for l in 0..nl {
             assert!(d.verif_conn_cost(newr[r], newl[l]) == cost_before[r][l],
                 "connection cost between mapped ids differs from the original");
         }
     }
     assert!(d.verif_mapper().is_some());
-    kani::cover!(newl[1] == 2 && newr[1] == 1);
+    kani::cover!(before[0].left_id == 1 && before[0].right_id == 2);
     core::mem::forget(d);
+}
+
+const S6C: Spec = Spec { sys: L_A_AB, user: Some(L_B), cats: CATS_MIX, unk_mult: &[1, 1, 1], nr: 4, nl: 4 };
+const S6R: Spec = Spec { sys: L_A_AB, user: Some(L_B), cats: CATS_MIX, unk_mult: &[1, 1, 1], nr: 2, nl: 4 };
+
+//@ c06_dict_map_cycles {"desc":"Dictionary::map_connection_ids_from_iter with 3-cycles on both sides: every system/user/unknown entry gets the mapped ids with unchanged cost, the connector answers cost(map r, map l) = cost(r,l) for all 16 pairs incl. id 0, the mapper is retained","bounds":"dictionary S6C: system {a,ab}, user {b}, 3 unk entries, 4x4 matrix; left mapping [2,3,1], right mapping [3,1,2]","symbolic":"all params, matrix cells","functions":["Dictionary::map_connection_ids_from_iter","Lexicon::map_connection_ids","WordParams::map_connection_ids","UnkHandler::map_connection_ids","ConnectorWrapper::map_connection_ids","MatrixConnector::map_connection_ids","ConnIdMapper::from_iter"],"unwind":10,"fs":2048,"timeout":1200,"stubs":["alloc::fmt::format"]}
+#[cfg(kani)]
+#[kani::proof]
+#[kani::stub(alloc::fmt::format, stub_format)]
+fn c06_dict_map_cycles() {
+    dict_map_concrete(&S6C, [2u16, 3, 1], [3u16, 1, 2])
+}
+
+//@ c06_dict_map_nonsquare {"desc":"whole-dictionary mapping on a non-square connector (2 right ids, 4 left ids), 3-cycle on the left ids","bounds":"dictionary S6R: 2x4 matrix; left mapping [3,1,2], right mapping [1]","symbolic":"all params, matrix cells","functions":["Dictionary::map_connection_ids_from_iter","MatrixConnector::map_connection_ids","UnkHandler::map_connection_ids"],"unwind":10,"fs":2048,"timeout":1200,"stubs":["alloc::fmt::format"]}
+#[cfg(kani)]
+#[kani::proof]
+#[kani::stub(alloc::fmt::format, stub_format)]
+fn c06_dict_map_nonsquare() {
+    dict_map_concrete(&S6R, [3u16, 1, 2], [1u16])
+}
+
+//@ c06_dict_map_swaps {"tier":"thorough","desc":"whole-dictionary mapping with swaps on a 3x3 connector","bounds":"dictionary S6; mappings [2,1] and [2,1]","symbolic":"all params, matrix cells","functions":["Dictionary::map_connection_ids_from_iter"],"unwind":10,"fs":2048,"timeout":1200,"stubs":["alloc::fmt::format"]}
+#[cfg(kani)]
+#[kani::proof]
+#[kani::stub(alloc::fmt::format, stub_format)]
+fn c06_dict_map_swaps() {
+    dict_map_concrete(&S6, [2u16, 1], [2u16, 1])
 }
 
 /// Mappings of the wrong length, or mentioning 0 / duplicates / out-of-range ids, are rejected
@@ -238,8 +261,9 @@ fn c06_dict_map_empty() {
 #[cfg(kani)]
 fn tokens_invariant(chars: &[char], text: &'static str, twice: bool) {
     let d0 = dict_of(&S6);
-    let lmap = sym_perm(2);
-    let rmap = sym_perm(2);
+    // concrete permutations (structure); every cost, id and matrix cell is symbolic
+    let lmap = [2u16, 1];
+    let rmap = [2u16, 1];
     // unmapped run
     let tok0_owned = Tokenizer::new(d0);
     let tok0 = &tok0_owned;
@@ -254,8 +278,8 @@ fn tokens_invariant(chars: &[char], text: &'static str, twice: bool) {
         Err(_) => unreachable!(),
     };
     let d1 = if twice {
-        let l2 = sym_perm(2);
-        let r2 = sym_perm(2);
+        let l2 = [2u16, 1];
+        let r2 = [1u16, 2];
         match d1.map_connection_ids_from_iter(l2.iter().cloned(), r2.iter().cloned()) {
             Ok(d) => d,
             Err(_) => unreachable!(),
@@ -338,7 +362,7 @@ fn clone_lex(l: &Lexicon, ls: &LexSpec, t: LexType) -> Lexicon {
     Lexicon::verif_from_parts(ls.trie, copy_u32(ls.post), params, feats, t)
 }
 
-//@ c06_tokens_invariant_ab {"desc":"tokenizing \"ab\" with the mapped dictionary gives the same optimal cost and, per boundary, the same candidates with the same prefix minima as the unmapped one, for every permutation pair","bounds":"N=2; dictionary S6 (system {a,ab}, user {b}, 3x3 matrix)","symbolic":"permutations, all costs/ids, matrix","functions":["Dictionary::map_connection_ids_from_iter","Worker::tokenize","Tokenizer::build_lattice","Lattice::*"],"unwind":8,"fs":2048,"timeout":1800,"mem_gb":20,"stubs":["alloc::fmt::format"]}
+//@ c06_tokens_invariant_ab {"desc":"tokenizing \"ab\" with the mapped dictionary gives the same optimal cost and, per boundary, the same candidates with the same prefix minima as the unmapped one, for swapped ids on both sides","bounds":"N=2; dictionary S6 (system {a,ab}, user {b}, 3x3 matrix); mappings [2,1],[2,1]","symbolic":"all costs/ids, matrix","functions":["Dictionary::map_connection_ids_from_iter","Worker::tokenize","Tokenizer::build_lattice","Lattice::*"],"unwind":8,"fs":2048,"timeout":1800,"mem_gb":20,"stubs":["alloc::fmt::format"]}
 #[cfg(kani)]
 #[kani::proof]
 #[kani::stub(alloc::fmt::format, stub_format)]
@@ -346,7 +370,7 @@ fn c06_tokens_invariant_ab() {
     tokens_invariant(&[A, B], "\u{1}\u{2}", false)
 }
 
-//@ c06_tokens_invariant_twice {"tier":"thorough","core":false,"desc":"as c06_tokens_invariant_ab after two successive mappings","bounds":"N=2; S6; two mappings","symbolic":"four permutations, costs, ids, matrix","functions":["Dictionary::map_connection_ids_from_iter","Worker::tokenize"],"unwind":8,"fs":2048,"timeout":2400,"mem_gb":24,"stubs":["alloc::fmt::format"]}
+//@ c06_tokens_invariant_twice {"tier":"thorough","core":false,"desc":"as c06_tokens_invariant_ab after two successive mappings","bounds":"N=2; S6; two mappings","symbolic":"costs, ids, matrix","functions":["Dictionary::map_connection_ids_from_iter","Worker::tokenize"],"unwind":8,"fs":2048,"timeout":2400,"mem_gb":24,"stubs":["alloc::fmt::format"]}
 #[cfg(kani)]
 #[kani::proof]
 #[kani::stub(alloc::fmt::format, stub_format)]
